@@ -10,7 +10,7 @@ from .common import FnCtx, SCtx, sctx
 from .c09 import ERR, OPT_KEEP, octx, KNOBS_ALTS
 
 PROP = "C10"
-FLOORS = {"C10.R1": 8, "C10.R2": 6, "C10.R3": 4, "C10.R4": 8, "C10.R5": 2, "C10.R6": 6, "C10.R7": 2}
+FLOORS = {"C10.R1": 8, "C10.R2": 6, "C10.R3": 4, "C10.R4": 8, "C10.R5": 2, "C10.R6": 6, "C10.R7": 2, "C10.R9": 1}
 META = {
     "explanation": "Every enable/disable call of Optimize passes keywords its callee accepts; each temporary enable_*/disable_* applied "
                    "before the solver steps has its inverse (opposite method, same keyword, argument and guard) after them; every store "
@@ -757,3 +757,13 @@ def check(col: Collector):
     with col.rule():
         shared(col, "C10.R7", [c15._row_consistency], select=lambda o: construct_tag(o) in ("knobs-read-after-they-were-set", "writes-each-active-knob"),
                why="a logged knob vector that is the solver's x instead of the containers' values puts a stale value back into a disabled knob")
+    # round 7: reload() restores the knob flags from the vary column (a disabled knob that comes back active is moved by the next
+    # step), and the x -> knob map works on its own copy (scaling the solver's x in place compounds the weight at every evaluation)
+    from . import c16
+    with col.rule():
+        shared(col, "C10.R9", [c09.check_reload], select=lambda o: "flags" in construct_tag(o) or "same-row" in construct_tag(o),
+               why="a disabled knob re-enabled by reload() (explicitly, by take_best or by restore_if_fail) is changed by the steps that follow")
+    with col.rule():
+        shared(col, "C10.R9", [c16._inverse_pairs], select=lambda o: construct_tag(o) in ("works-on-a-copy",),
+               why="an x -> knob map that rescales the solver's own vector in place multiplies the weight in once per evaluation: the knob "
+                   "leaves its limits and max_step although each proposed step respected them")
